@@ -33,6 +33,7 @@ var moduleIDs = map[string]int64{"fee_collector": 1, "customgov": 2, "mint": 3, 
 const (
 	kStaked, kUndel, kReward, kBToken, kSurplus, kSpool, kTip = 1, 2, 3, 4, 5, 6, 7
 	kDapp, kCollBond, kCollDon, kRecUnder, kRRReward        = 10, 11, 12, 13, 14
+	kCollDonShare                                           = 15
 )
 
 type key2 struct{ a, d int64 }
@@ -73,6 +74,7 @@ type env struct {
 	valAddr  []string // current validator (operator) address per validator: changes with address rotation
 	live     []int    // account indexes that still hold their funds (not rotated away)
 	nRot     int
+	again    map[string]func() // the last deposit-type operation per class, to be repeated by the same actor after a change
 	coll     string // the collective / dApp / recovery token the next operation addresses
 	dapp     string
 	rr       string
@@ -192,19 +194,27 @@ func (e *env) snapOf(c *abci.Chain, ctx sdk.Context) *snapshot {
 			idx = e.nColl
 			e.colls[c.Name] = idx
 		}
-		id := 1000 + idx
-		for _, a := range []string{c.GetCollectiveAddress().String(), c.GetCollectiveDonationAddress().String()} {
-			e.acc[a] = id
-		}
-		e.accName[id] = "collective:" + c.Name
+		// books PER ACCOUNT: the bond address owes every contributor RoundInt(bonds*(1-donation)), the donation address
+		// RoundInt(bonds*donation) -- exactly what WithdrawCollective takes from each of them
+		bondID, donID := 1000+2*idx, 1000+2*idx+1
+		e.acc[c.GetCollectiveAddress().String()] = bondID
+		e.acc[c.GetCollectiveDonationAddress().String()] = donID
+		e.accName[bondID] = "collective-bond-account:" + c.Name
+		e.accName[donID] = "collective-donation-account:" + c.Name
 		// every contributor record of the store, matched by its exact collective name (the keeper's per-collective getter
 		// iterates an un-separated key prefix: "coll1" would also return the contributors of "coll10")
 		for _, cc := range app.CollectivesKeeper.GetAllCollectiveContributers(ctx) {
 			if cc.Name != c.Name {
 				continue
 			}
+			don := cc.Donation
+			if don.IsNil() {
+				don = sdk.ZeroDec()
+			}
 			for _, coin := range cc.Bonds {
-				addTo(s.rec, key4{id, kCollBond, idx, e.denID(coin.Denom)}, coin.Amount.BigInt())
+				amt := sdk.NewDecFromInt(coin.Amount)
+				addTo(s.rec, key4{bondID, kCollBond, idx, e.denID(coin.Denom)}, amt.Mul(sdk.OneDec().Sub(don)).RoundInt().BigInt())
+				addTo(s.rec, key4{donID, kCollDonShare, idx, e.denID(coin.Denom)}, amt.Mul(don).RoundInt().BigInt())
 			}
 		}
 		for _, coin := range c.Donations {
